@@ -28,6 +28,14 @@ func scenCancel(m int, mask int, instant string) *connRun {
 		e.waitEv(2*time.Second, func(ev tev) bool { return ev.Point == "call.return" && fmt.Sprint(ev.Args[0]) == fmt.Sprint(w) })
 		base = 1
 	}
+	lateNotice := ""
+	if instant == "after-send-note" {
+		// a notification's handler is running (and stays so) on the same connection while the calls are cancelled
+		e.hold(1)
+		nt := e.call("notewait", context.Background())
+		e.waitEv(2*time.Second, evIs("h.start", nt))
+		base = 1
+	}
 	for i := 0; i < m; i++ {
 		ctxs[i], cancels[i] = context.WithCancel(context.Background())
 		e.hold(base + i + 1)
@@ -63,7 +71,7 @@ func scenCancel(m int, mask int, instant string) *connRun {
 		}
 	}
 	switch instant {
-	case "after-send":
+	case "after-send", "after-send-note":
 		for i := 0; i < m; i++ {
 			if mask&(1<<i) != 0 {
 				e.tr.ev("ctx.cancel", toks[i])
@@ -73,7 +81,9 @@ func scenCancel(m int, mask int, instant string) *connRun {
 		// the cancelled handlers must notice; the others must not
 		for i := 0; i < m; i++ {
 			if mask&(1<<i) != 0 {
-				e.waitEv(2*time.Second, evIs("h.ctxdone", toks[i]))
+				if !e.waitEv(2*time.Second, evIs("h.ctxdone", toks[i])) && lateNotice == "" {
+					lateNotice = fmt.Sprintf("call %d was cancelled by its caller while in flight (%s); 2 s later, with everything else on the connection unchanged, its handler context still was not", toks[i], instant)
+				}
 			}
 		}
 		time.Sleep(10 * time.Millisecond)
@@ -116,6 +126,9 @@ func scenCancel(m int, mask int, instant string) *connRun {
 	}
 	r := e.finish("cancel", params)
 	if r.Oracle == "" {
+		r.Oracle = lateNotice
+	}
+	if r.Oracle == "" {
 		r.Oracle = cancelOracle(r, toks, mask, instant)
 	}
 	return r
@@ -137,7 +150,7 @@ func cancelOracle(r *connRun, toks []int, mask int, instant string) string {
 		if !cancelled && saw[fmt.Sprint(t)] {
 			return fmt.Sprintf("the handler context of call %d was cancelled although its caller never cancelled (cancelled subset mask %b)", t, mask)
 		}
-		if cancelled && instant == "after-send" && !saw[fmt.Sprint(t)] {
+		if cancelled && (instant == "after-send" || instant == "after-send-note") && !saw[fmt.Sprint(t)] {
 			return fmt.Sprintf("call %d was cancelled by its caller while in flight but its handler context never was", t)
 		}
 		if cancelled && instant == "before-send-busy" && started[fmt.Sprint(t)] && !saw[fmt.Sprint(t)] {
@@ -338,6 +351,7 @@ func scenConnEnd(cause string, withStream bool) *connRun {
 	case "server-cancel":
 		e.tr.ev("srv.cancel")
 		e.srvCancel()
+		e.tr.ev("srv.cancelled")
 	}
 	okA := e.waitEv(3*time.Second, evIs("h.ctxdone", a))
 	okB := e.waitEv(3*time.Second, evIs("h.ctxdone", b))
@@ -380,9 +394,9 @@ func scenConnEnd(cause string, withStream bool) *connRun {
 // connend-blocked: a handler is in progress while another response is stuck in a socket write (the peer stopped
 // reading), server pings are on; then the client says goodbye with a close frame but the TCP connection lingers.
 // The contexts of the handlers still running must be cancelled all the same.
-func scenConnEndBlocked() *connRun {
-	e := newConnEnv(connOpts{noReconnect: true, srvPing: 20 * time.Millisecond})
-	params := map[string]interface{}{"cause": "close-frame-with-blocked-writer"}
+func scenConnEndBlocked(clientPing time.Duration) *connRun {
+	e := newConnEnv(connOpts{noReconnect: true, srvPing: 20 * time.Millisecond, ping: clientPing})
+	params := map[string]interface{}{"cause": "close-frame-with-blocked-writer", "client_ping_ms": clientPing.Milliseconds()}
 	e.hold(1)
 	e.hold(2)
 	a := e.call("waitctx", context.Background())
@@ -405,7 +419,9 @@ func scenConnEndBlocked() *connRun {
 	case <-time.After(2 * time.Second):
 	}
 	e.tr.ev("stop.returned")
-	okA := e.waitEv(3*time.Second, evIs("h.ctxdone", a))
+	// with the client pinging, the server's reader has pongs to answer behind the blocked writer: each attempt may take its
+	// one-second write deadline before the reader goes on to the close frame
+	okA := e.waitEv(6*time.Second, evIs("h.ctxdone", a))
 	okB := e.waitEv(3*time.Second, evIs("h.ctxdone", b))
 	r := e.finish("connend", params)
 	if r.Oracle == "" || strings.Contains(r.Oracle, "never returned") {
@@ -571,8 +587,8 @@ func init() {
 			maxM := 3
 			for m := 1; m <= maxM; m++ {
 				for mask := 0; mask < 1<<m; mask++ {
-					for _, inst := range []string{"after-send", "before-send", "race-response", "before-send-busy"} {
-						if (inst == "race-response" || inst == "before-send-busy") && mask == 0 {
+					for _, inst := range []string{"after-send", "before-send", "race-response", "before-send-busy", "after-send-note"} {
+						if (inst == "race-response" || inst == "before-send-busy" || inst == "after-send-note") && mask == 0 {
 							continue
 						}
 						if tier == "quick" && m == 3 && inst != "after-send" && mask%3 != int(seed%3) {
@@ -601,7 +617,8 @@ func init() {
 					connendLeakyProducer = false
 				}
 			}
-			emit(scenConnEndBlocked())
+			emit(scenConnEndBlocked(0))
+			emit(scenConnEndBlocked(25 * time.Millisecond))
 			emit(scenConnEndHandoff("rst"))
 			emit(scenConnEndHandoff("fin"))
 		}
